@@ -1235,7 +1235,13 @@ pub(crate) fn digest(b: &[u8]) -> [u8; 32] {
     output
 }
 
-fn check_spec_reserved_keys(key: &[u8], mut value: &[u8]) -> Result<(), Error> {
+pub(crate) fn check_spec_reserved_keys(key: &[u8], mut value: &[u8]) -> Result<(), Error> {
+    // Every value is exactly one RLP item: anything else corrupts the encoding of the record.
+    let mut item = value;
+    let header = Header::decode(&mut item)?;
+    if item.len() != header.payload_length {
+        return Err(Error::InvalidRlpData(DecoderError::UnexpectedLength));
+    }
     match key {
         TCP_ENR_KEY | TCP6_ENR_KEY | UDP_ENR_KEY | UDP6_ENR_KEY => {
             u16::decode(&mut value)?;
